@@ -6,8 +6,9 @@ M-KV — the two storage backends behind `dbm.DB` (database/leveldb/db.go).
               implement; goleveldb itself is third-party and only reached by the harness.
 * `Mem…`    : `mem_db.go` AS IT IS: a Go map (association list with unique keys, the order of
               which must not matter), iterators that collect the keys, `sort.Strings` them and
-              `Seek` linearly; `IteratorPrefixWithStart` IGNORES its `Prefix` argument and, in
-              reverse mode, seeks in the reversed list; `Set` keeps the caller's slice (so a nil
+              `Seek` linearly; `IteratorPrefixWithStart` collects the keys with the prefix that are
+              `>= start` (the prefix filter is the repair 686eb360) and, in reverse mode, seeks in
+              the reversed list; `Set` keeps the caller's slice (so a nil
               value stays nil and a later write through the caller's slice is visible).
 
 Go values: a `[]byte` result is `none` for the nil slice and `some bs` otherwise.
@@ -130,12 +131,12 @@ def sortKeys : List Bytes → List Bytes
 def Mem.iterPrefix (m : Mem) (p : Bytes) : List (Bytes × Option Bytes) :=
   (sortKeys ((m.map Prod.fst).filter (hasPrefix p))).map (fun k => (k, Mem.get m k))
 
-/-- `getSortedKeys(start, reverse)`: every key `≥ start` (all keys for a nil start), sorted,
-    reversed for a reverse iterator. The `Prefix` argument never reaches this function. -/
-def Mem.sortedKeys (m : Mem) (start : Option Bytes) (rev : Bool) : List Bytes :=
-  let ks := (m.map Prod.fst).filter (fun k => match start with
+/-- `getSortedKeys(prefix, start, reverse)`: every key with the prefix that is `≥ start` (no
+    lower bound for a nil start), sorted, reversed for a reverse iterator. -/
+def Mem.sortedKeys (m : Mem) (p : Bytes) (start : Option Bytes) (rev : Bool) : List Bytes :=
+  let ks := (m.map Prod.fst).filter (fun k => hasPrefix p k && (match start with
     | none => true
-    | some st => !blt k st)
+    | some st => !blt k st))
   let ks := sortKeys ks
   if rev then ks.reverse else ks
 
@@ -146,9 +147,9 @@ def seekIdx (point : Bytes) : List Bytes → Option Nat
 
 /-- `IteratorPrefixWithStart(Prefix, start, isReverse)` of MemDB, observed like `Spec.iterWS`.
     `last = -1` (no `Seek` hit, or nil start) is "not on an entry". -/
-def Mem.iterWS (m : Mem) (_prefix : Bytes) (start : Option Bytes) (rev : Bool) :
+def Mem.iterWS (m : Mem) (p : Bytes) (start : Option Bytes) (rev : Bool) :
     Option (Bytes × Option Bytes) × List (Bytes × Option Bytes) :=
-  let keys := Mem.sortedKeys m start rev
+  let keys := Mem.sortedKeys m p start rev
   let ent := fun k => (k, Mem.get m k)
   match start with
   | none => (none, keys.map ent)
